@@ -5,6 +5,10 @@ package legacy
 // C15 (sufficient condition): route lookup writes neither the document nor the router.
 //@ func (*Router).FindRoute
 //@   modifies *
+//@   preserves @C14 openapi3filter.Validator.strict, openapi3filter.Validator.errFunc, openapi3filter.Validator.logFunc, openapi3filter.Validator.router, http.Request.URL
+//@   preserves @C14 handlerCalls, errCalls, cliHdr, cliCode, cliBody
+//@   defines (result.2 == nil) <==> routeFound(req)
+//@   defines result.2 == nil ==> routeWF(result.0)
 // (Router.pathNode is lazily initialised by node(); FindRoute reaches that store only for a router
 // not built by NewRouter, whose nil document makes FindRoute fail earlier - see C09 contracts.)
 //@   preserves @C15 all(openapi3), all(routers), Router.doc, all(pathpattern)
